@@ -4,11 +4,21 @@ package poly1305
 
 // Contracts for govc (/verif). Comments only.
 
+// The one-shot Verify records what it was asked about in ghost fields of the message's object: a call
+// counter, its answer, the message window, the tag bytes compared. Callers' contracts can then say
+// "success only after a tag check over exactly these bytes that answered true".
+//@ ghostdecl vtag (Array Int Int)
 //@ func Verify
 //@ trusted
 //@ note Poly1305 tag check (constant-time comparison of the computed tag): not verified; assumed to read its arguments only
 //@ nonnil mac key
-//@ pure
+//@ modifies ghost(m, vcnt)
+//@ modifies ghost(m, vok)
+//@ modifies ghost(m, voff)
+//@ modifies ghost(m, vlen)
+//@ modifies ghost(m, vtag)
+//@ ensures ghost(m, vcnt) == old(ghost(m, vcnt)) + 1 && ghost(m, vok) == ite(result, 1, 0)
+//@ ensures ghost(m, voff) == off(m) && ghost(m, vlen) == len(m) && forall(i, 0, 16, ghost(m, vtag)[i] == mac[i])
 
 //@ func Sum
 //@ trusted
